@@ -236,11 +236,24 @@ type c16StressBuilderOut struct {
 // waiters. The bookkeeping only decides *where to look*; what must be seen there is judged
 // by the Lean model and specification.
 func c16Annotate(seq []string, peekAt int) (out []string, peeked bool) {
+	out, peeked, _ = c16AnnotateLazy(seq, peekAt, false)
+	return out, peeked
+}
+
+// c16AnnotateLazy: with lazy set, the join of a waiter that a completion must wake is put
+// AFTER the operation that follows the completion (a Clear, a re-Init, another completion …)
+// instead of right after the completion: the woken waiter has not been joined yet when the
+// slot changes again, so whatever it does after waking up (it must return the trace of the
+// slot it waited on) races with that operation. differs tells whether that moved anything.
+func c16AnnotateLazy(seq []string, peekAt int, lazy bool) (out []string, peeked bool, differs bool) {
+	var deferred []string
 	cur := map[string]int{}   // name -> epoch
 	done := map[int]bool{}    // epoch completed
 	waits := map[string]int{} // waiter -> epoch
 	epoch := 0
 	for i, op := range seq {
+		joins := deferred // the joins deferred by the previous operation follow this one
+		deferred = nil
 		f := strings.Split(op, ":")
 		switch f[0] {
 		case "i":
@@ -256,7 +269,12 @@ func c16Annotate(seq []string, peekAt int) (out []string, peeked bool) {
 				done[e] = true
 				for _, w := range []string{"1", "2"} {
 					if we, ok := waits[w]; ok && we == e {
-						out = append(out, "j:"+w)
+						if lazy && i+1 < len(seq) {
+							deferred = append(deferred, "j:"+w)
+							differs = true
+						} else {
+							out = append(out, "j:"+w)
+						}
 						delete(waits, w)
 					}
 				}
@@ -274,6 +292,7 @@ func c16Annotate(seq []string, peekAt int) (out []string, peeked bool) {
 		default:
 			out = append(out, op)
 		}
+		out = append(out, joins...)
 		if i == peekAt && !peeked {
 			for _, w := range []string{"1", "2"} {
 				if e, ok := waits[w]; ok && !done[e] {
@@ -285,7 +304,7 @@ func c16Annotate(seq []string, peekAt int) (out []string, peeked bool) {
 		}
 	}
 	out = append(out, "k:1", "k:2")
-	return out, peeked
+	return out, peeked, differs
 }
 
 var c16SlotSyms = []string{"i:a", "i:b", "x:a", "x:b", "c:a", "c:b", "c:z", "a:1:a", "a:1:b", "a:1:z", "a:2:a", "a:2:b", "a:2:z", "k:1", "k:2"}
@@ -299,6 +318,8 @@ func runC16(c *gen.Ctx) error {
 	// server-side middleware handing over a trace that must be final
 	c16WireGen(c)
 	c16FinalGen(c)
+	// ---- exactly-once on a traced HTTP/2 connection under every tear-down sequence
+	c16TeardownGen(c)
 	// ---- Tracer: every operation order up to maxLen
 	maxLen := 4
 	peekBudget := 120
@@ -320,6 +341,12 @@ func runC16(c *gen.Ctx) error {
 			e.Count("slots:with-peek")
 		}
 		c.Do("slots", c16SlotsIn{Ops: ops, Nil: false})
+		// the same order with the woken waiter joined only after the operation that follows
+		// its completion (Clear / re-Init / … race with whatever the waiter does on waking up)
+		if lazyOps, _, differs := c16AnnotateLazy(seq, -1, true); differs {
+			e.Count("slots:join-deferred-past-the-next-operation")
+			c.Do("slots", c16SlotsIn{Ops: lazyOps, Nil: false})
+		}
 	}
 	rec = func(prefix []string, open1, open2 bool) {
 		if len(prefix) > 0 {
@@ -371,6 +398,10 @@ func runC16(c *gen.Ctx) error {
 			e.Count("slots:with-peek")
 		}
 		c.Do("slots", c16SlotsIn{Ops: ops})
+		if lazyOps, _, differs := c16AnnotateLazy(seq, -1, true); differs && i%2 == 0 {
+			e.Count("slots:join-deferred-past-the-next-operation")
+			c.Do("slots", c16SlotsIn{Ops: lazyOps})
+		}
 	}
 	// a nil tracer
 	for _, seq := range [][]string{{"i:a", "a:1:a", "c:a", "a:2:a"}, {"a:1:z"}, {"i:a", "c:a", "x:a", "a:1:a"}} {
